@@ -15,7 +15,7 @@ pub const SPEC: PropertySpec = PropertySpec {
     id: "C01",
     level: "exploration",
     rule: "scenario = generated multi-instance pre-state + honest data-driven programs on crafted scope nodes + candidate set + K arrival schedules (permutations with 1-3 duplicate deliveries, sorted, reversed) + engine config (scheduler kind, workers, rule registration order, optional second interleaved transaction); 1 in 8 runs crosses the 1024-candidate sort threshold; non-trivial = >=2 matched candidates and (>=1 rejected or >=1 duplicate delivery); distinct = hash of (state, candidate set)",
-    quick_runs: 12_000,
+    quick_runs: 6_000,
     thorough_runs: 600_000,
     real_components: &["Engine (apply_in_warp, commit_with_receipt)", "RadixScheduler / LegacyScheduler", "parallel executor + merge", "tick_patch diff/apply", "snapshot hashing", "footprint guard (enforcement on)"],
     stub_components: &["application rules: one data-driven interpreter rule per rule id (programs are generated data)"],
